@@ -134,3 +134,87 @@ def dominated_by_call(body, a, b):
     if tgt is None:
         return False
     return body.edge_dominates((a.bb, tgt), b.bb) and a.bb != b.bb
+
+
+# ---------------------------------------------------------------- comparison guards (K9 helpers)
+
+def eq_compares(body, self_ty_rx):
+    """PartialEq::eq / ne calls whose Self type matches"""
+    rx = re.compile(self_ty_rx)
+    return [c for c in body.calls if c.f in ("core::cmp::PartialEq::eq", "core::cmp::PartialEq::ne") and rx.search(c.self_ty) and not c.noise]
+
+
+def effect_only_when_equal(body, cmp_call, effect_blocks):
+    """(ok, detail): the effect blocks are reachable when the compare says EQUAL and unreachable when it says DIFFERENT"""
+    tt = flow.effect_truth_table(body, [cmp_call.bb], effect_blocks)
+    is_eq = cmp_call.name() == "eq"
+    when_equal = tt[(True,)] if is_eq else tt[(False,)]
+    when_diff = tt[(False,)] if is_eq else tt[(True,)]
+    return (when_equal and not when_diff), {"equal": when_equal, "different": when_diff}
+
+
+def returns_when(body, cmp_call):
+    """for a bool closure: (set of return values when EQUAL, when DIFFERENT)"""
+    tt = flow.return_truth_table(body, [cmp_call.bb])
+    is_eq = cmp_call.name() == "eq"
+    return (tt[(True,)] if is_eq else tt[(False,)]), (tt[(False,)] if is_eq else tt[(True,)])
+
+
+def operand_origins(body, call, i):
+    p = op_place(call.args[i])
+    if p is None:
+        return set()
+    return flow.origins(body, p, at=(call.bb, "T"))
+
+
+def origin_summary(orgs):
+    out = []
+    for o in orgs:
+        if o.kind == "call":
+            out.append("call:%s%s" % (o.call.f.rsplit("::", 2)[-2] + "::" + o.call.name() if "::" in o.call.f else o.call.f, ("." + ".".join(o.field_names())) if o.field_names() else ""))
+        elif o.kind == "arg":
+            out.append("arg%d%s" % (o.local, ("." + ".".join(o.field_names())) if o.field_names() else ""))
+        elif o.kind == "const":
+            c = o.const or {}
+            out.append("const:%s" % (c.get("s", c.get("v", c.get("named", c.get("agg", c.get("t")))))))
+        else:
+            out.append(o.kind)
+    return sorted(set(out))
+
+
+def blocks_of_calls(calls):
+    return sorted({c.bb for c in calls})
+
+
+def agg_blocks(body, adt_suffix, variant=None):
+    return sorted({a[0] for a in aggregates(body, adt_suffix, variant)})
+
+
+def call_strings(body, call, F=None):
+    """string constants flowing into the arguments of a call (directly or through locals / format pieces)"""
+    out = []
+    for a in call.args:
+        k = op_const(a)
+        if k is not None:
+            if "s" in k:
+                out.append(k["s"])
+            elif F is not None and "named" in k:
+                v = F.const_str(k)
+                if v:
+                    out.append(v)
+            continue
+        p = op_place(a)
+        if p is None:
+            continue
+        for o in flow.origins(body, p, at=(call.bb, "T")):
+            if o.kind == "const" and o.const:
+                if "s" in o.const:
+                    out.append(o.const["s"])
+                elif "promoted" in o.const:
+                    pr = body.promoted[o.const["promoted"]] if o.const["promoted"] < len(body.promoted) else []
+                    out += [x["s"] for x in pr if "s" in x]
+                elif F is not None and "named" in o.const:
+                    v = F.const_str(o.const)
+                    if v:
+                        out.append(v)
+    return out
